@@ -106,6 +106,7 @@ def evaluate(case):
 
 
 _text = st.lists(st.sampled_from(TXT), min_size=1, max_size=8).map("".join)
+_long_text = st.lists(st.sampled_from(TXT), min_size=30, max_size=60).map("".join)
 _tree = st.recursive(
     st.lists(_text, min_size=1, max_size=2),
     lambda kids: st.lists(
@@ -117,12 +118,16 @@ _tree = st.recursive(
 @st.composite
 def _case(draw, mode):
     tree = draw(_tree)
+    if draw(st.integers(0, 5)) == 0:
+        # now and then a long text node: the document grows beyond 100 characters
+        tree = list(tree)
+        tree.insert(draw(st.integers(0, len(tree))), draw(_long_text))
     src, plain = ser(tree)
     n = len(plain)
     spans = []
     for _ in range(draw(st.integers(1, 5))):
         a = draw(st.integers(0, n))
-        b = draw(st.integers(a, min(n, a + 12)))
+        b = draw(st.integers(a, min(n, a + draw(st.sampled_from([12, 12, 12, 40])))))
         spans.append([a, b])
     return {"tree": tree, "spans": spans, "mode": mode}
 
